@@ -6,7 +6,7 @@ import sys
 _READY = False
 
 
-def init(devices=1):
+def init(devices=1, x64=True):
     """Called once in every spawned worker (and by in-process users) before jax is imported."""
     global _READY
     os.environ["JAX_PLATFORMS"] = "cpu"
@@ -23,7 +23,8 @@ def init(devices=1):
     warnings.filterwarnings("ignore")
     import jax
 
-    jax.config.update("jax_enable_x64", True)
+    if x64:
+        jax.config.update("jax_enable_x64", True)
     assert len(jax.devices()) == devices, (len(jax.devices()), devices)
     from loguru import logger
 
@@ -38,9 +39,9 @@ def init(devices=1):
     _READY = True
 
 
-def ensure(devices=1):
+def ensure(devices=1, x64=True):
     if not _READY:
-        init(devices)
+        init(devices, x64)
 
 
 def quiet():
